@@ -2,7 +2,10 @@
 //! loopback ports and talks to it with this project's own clients (`RibbitClient` for TCP v1/v2 incl. the
 //! V1 MIME checksum verification, `TactClient` for HTTP) and, for malformed requests, with raw sockets.
 //!
-//! usage: drv_ribbit --programs <file|-> --out <file|-> [--par N] [--big BYTES]
+//! usage: drv_ribbit --programs <file|-> --out <file|-> [--par N] [--big BYTES] [--nofile N]
+//!   --par N     programs run concurrently (each has its own server, ports and server threads `srv-<index>`)
+//!   --big BYTES length of the oversized request line
+//!   --nofile N  soft limit on open descriptors of this process (family "flood": server and clients share it)
 //!
 //! Program (one JSON object per line, produced by TLC from spec/mc/MC_Ribbit.tla):
 //!   {"fam":"fields",
@@ -41,8 +44,9 @@ use verif_harness::{arg, arg_u64, read_programs};
 
 /// a concurrent valid probe must be answered within this many seconds (generous: shared, loaded machine)
 const PROBE_DEADLINE: Duration = Duration::from_secs(30);
-/// the server's read timeout is 10 s; a never-terminated request is given 5x that before "open" is recorded
-const FINISH_DEADLINE: Duration = Duration::from_secs(50);
+/// the server's read timeout is 10 s; a never-terminated request is given 4.5x that, counted from the moment
+/// the connection group was opened, before "open" is recorded (at least 2 s from the start of `finish`)
+const FINISH_DEADLINE: Duration = Duration::from_secs(45);
 const PROGRAM_DEADLINE: Duration = Duration::from_secs(400);
 const EKEY: &str = "aaaabbbbccccddddeeeeffffaaaaffff";
 
@@ -338,6 +342,7 @@ async fn finish_one(mut s: TcpStream, tr: String, deadline: Instant) -> Value {
 struct RawConn {
     tr: String,
     socks: Vec<TcpStream>,
+    opened: Instant,
 }
 
 fn ascii_json(v: &Value) -> String {
@@ -407,7 +412,7 @@ async fn run_program(idx: usize, prog: Value, big: usize, evs: Arc<Mutex<Vec<Str
                     }
                 }
                 ev["res"] = json!({"connected": socks.len()});
-                conns.insert(step["c"].as_u64().expect("c"), RawConn { tr, socks });
+                conns.insert(step["c"].as_u64().expect("c"), RawConn { tr, socks, opened: t0 });
             }
             "send" => {
                 let c = conns.get_mut(&step["c"].as_u64().expect("c")).expect("send on a connection that was not opened");
@@ -432,7 +437,7 @@ async fn run_program(idx: usize, prog: Value, big: usize, evs: Arc<Mutex<Vec<Str
             }
             "finish" => {
                 let c = conns.remove(&step["c"].as_u64().expect("c")).expect("finish on a connection that was not opened");
-                let deadline = Instant::now() + FINISH_DEADLINE;
+                let deadline = (c.opened + FINISH_DEADLINE).max(Instant::now() + Duration::from_secs(2));
                 let mut outs: Vec<Value> = vec![];
                 let results = futures::future::join_all(c.socks.into_iter().map(|s| finish_one(s, c.tr.clone(), deadline))).await;
                 for r in results {
@@ -456,9 +461,32 @@ async fn run_program(idx: usize, prog: Value, big: usize, evs: Arc<Mutex<Vec<Str
     }
 }
 
+#[repr(C)]
+struct RLimit {
+    cur: u64,
+    max: u64,
+}
+unsafe extern "C" {
+    fn getrlimit(resource: i32, rlim: *mut RLimit) -> i32;
+    fn setrlimit(resource: i32, rlim: *const RLimit) -> i32;
+}
+/// Lower the soft limit on open descriptors of this process (family "flood"); Linux: RLIMIT_NOFILE = 7.
+fn limit_descriptors(n: u64) {
+    let mut r = RLimit { cur: 0, max: 0 };
+    // SAFETY: plain libc calls on a properly laid out struct rlimit (two 64-bit words on 64-bit Linux)
+    let ok = unsafe { getrlimit(7, &mut r) == 0 && setrlimit(7, &RLimit { cur: n.min(r.max), max: r.max }) == 0 };
+    if !ok {
+        eprintln!("drv_ribbit: could not set RLIMIT_NOFILE");
+        std::process::exit(4);
+    }
+}
+
 fn main() {
     install_panic_hook();
     let args: Vec<String> = std::env::args().collect();
+    if let Some(n) = arg(&args, "--nofile").and_then(|s| s.parse::<u64>().ok()) {
+        limit_descriptors(n);
+    }
     let programs = arg(&args, "--programs").map(|p| read_programs(&p)).unwrap_or_default();
     let par = arg_u64(&args, "--par", 16) as usize;
     let big = arg_u64(&args, "--big", 1 << 20) as usize;
